@@ -404,6 +404,10 @@ fn explore(ctx: &mut Ctx) {
 }
 
 fn main() {
+    kvh::on_thread(real_main);
+}
+
+fn real_main() {
     let args = kvh::parse_args("C19", "c19");
     let mut ctx = Ctx::new(args.clone(), RULE);
     if let Some(p) = &args.replay {
